@@ -39,7 +39,7 @@ inductive Fault where
 inductive Out (σ : Type) where
   | ok (v : σ)
   | fault (f : Fault)
-  deriving Repr
+  deriving Repr, DecidableEq
 
 namespace Out
 def bind {σ τ} (r : Out σ) (f : σ → Out τ) : Out τ :=
